@@ -470,8 +470,17 @@ class ERes:
 
 
 def is_pending_state(snap, st):
+    """input-independent pending work: a lone fall-through Else (dummy / proxy state) or a condition point (looks at data only)"""
     trs = snap.tr.get(st)
-    return (trs is not None and not snap.is_cond(st) and len(trs) == 1 and Else in trs[0].on and trs[0].fall and st is not snap.fail)
+    if trs is None or st is snap.fail:
+        return False
+    if snap.is_cond(st):
+        return True
+    if not trs or not all(t.fall for t in trs) or not any(Else in t.on for t in trs):
+        return False
+    # every symbol (the Else transition covers the rest, End included) falls through to the same target with the same actions
+    t0 = trs[0]
+    return all(t.target is t0.target and len(t.actions) == len(t0.actions) and all(a is b for a, b in zip(t.actions, t0.actions)) for t in trs)
 
 
 def eflush(machine, ctx, st, data, events, last_sym, ubs, limit=None):
@@ -483,11 +492,21 @@ def eflush(machine, ctx, st, data, events, last_sym, ubs, limit=None):
         n += 1
         if n > limit:
             return 'UNWIND', st, data
-        t = snap.tr[st][0]
-        nst = t.target
         last = CV(last_sym, C.U8) if (last_sym is not None and last_sym is not End) else (C.lit(255, C.INT) if last_sym is End else None)
         data = data.copy()
         ub = C.UB()
+        if snap.is_cond(st):
+            t = None
+            for cand in snap.tr[st]:
+                if machine.cond(ctx, cand.cond, data, last, ub):
+                    t = cand
+                    break
+            if t is None:
+                ubs.append(ub.any())
+                return 'FAIL', st, data
+        else:
+            t = next(x for x in snap.tr[st] if Else in x.on)
+        nst = t.target
         ret = None
         for a in t.actions:
             r = machine.act(ctx, a, data, last, ub, events)
